@@ -29,6 +29,9 @@ def gen(rnd):
         k = rnd.randrange(len(sc['passes']))
         if sc['passes'][k]['maxt'] is None:
             sc['start_with_key'] = sc['passes'][k]['key']
+            if k > 0 and rnd.random() < 0.5:
+                # an EARLIER pass whose name merely starts with the requested one (ScriptPass::1 vs ScriptPass::12)
+                sc['passes'][rnd.randrange(k)]['key'] = sc['passes'][k]['key'] * 10 + rnd.randint(0, 9)
     if rnd.random() < 0.3:   # a pass that never succeeds, long enumeration: exercises give-up
         sc['passes'].insert(0, {'key': 9, 'ops': [('inval',)] * rnd.randint(6, 14), 'aos': 0, 'maxt': None, 'newfix': None})
     return sc
